@@ -288,4 +288,8 @@ enum { E_UINT8, E_UINT16, E_UINT32, E_UINT64, E_UINT, E_NEGINT8, E_NEGINT16, E_N
 extern const char* const enc_names[E_N];
 size_t vh_call_encoder(int e, uint64_t v, uint8_t* buf, size_t n);
 
+/* construction-API tree builder with variations (d_ser.c), shared with the fault driver */
+cbor_item_t* ser_build_variant(const rnode* n, struct vh_rng* r);
+rnode* ser_api_shadow(uint64_t u, uint64_t seed, struct vh_rng* r);
+
 #endif
